@@ -49,6 +49,29 @@ def inventory(ck, pkg_mods):
             return None
         return bool(rec(node, []))
 
+    def context_of(node, target):
+        """enclosing exception handlers / if-tests of a call (the condition under which the mutation happens)"""
+        def rec(n, ctx):
+            if n is target:
+                return ctx
+            for field, value in ast.iter_fields(n):
+                items = value if isinstance(value, list) else [value]
+                for ch in items:
+                    if not isinstance(ch, ast.AST):
+                        continue
+                    c2 = ctx
+                    if isinstance(n, ast.ExceptHandler) and field == "body":
+                        c2 = ctx + ["except " + (ast.unparse(n.type) if n.type is not None else "<bare>")]
+                    elif isinstance(n, ast.If) and field == "body":
+                        c2 = ctx + ["if " + ast.unparse(n.test)]
+                    elif isinstance(n, ast.If) and field == "orelse":
+                        c2 = ctx + ["if not (" + ast.unparse(n.test) + ")"]
+                    r = rec(ch, c2)
+                    if r is not None:
+                        return r
+            return None
+        return " / ".join(rec(node, []) or [])
+
     def callees(key):
         out = set()
         sites = []
@@ -60,7 +83,7 @@ def inventory(ck, pkg_mods):
                 f = c.func
                 txt = ast.unparse(f)
                 if txt in MUTATORS:
-                    sites.append((txt, ast.unparse(c)[:80], c.lineno))
+                    sites.append((txt, ast.unparse(c)[:80] + "  [when: " + context_of(node, c) + "]", c.lineno, context_of(node, c)))
                 if txt in ("open", "io.open") and len(c.args) >= 2 and isinstance(c.args[1], ast.Constant) and any(ch in str(c.args[1].value) for ch in "wax+"):
                     sites.append(("open(write)", ast.unparse(c)[:80], c.lineno))
                 if txt.endswith("h5py.File") or txt == "File":
@@ -118,7 +141,7 @@ def inventory(ck, pkg_mods):
         seen[key] = chain
         cs, sites = callees(key)
         for s in sites:
-            found.setdefault((key, s[0], s[1]), chain)
+            found.setdefault((key, s[0], s[1], s[3] if len(s) > 3 else ""), chain)
         for c in cs:
             if c not in seen:
                 stack.append((c, chain + (c,)))
@@ -126,10 +149,10 @@ def inventory(ck, pkg_mods):
     ck.extra["inventory_roots"] = len(roots)
     if len(roots) < 20:
         raise EngineError("read-API roots not found (%d)" % len(roots))
-    for (key, what, text), chain in sorted(found.items(), key=lambda x: str(x)):
+    for (key, what, text, when), chain in sorted(found.items(), key=lambda x: str(x)):
         site = "%s@%s.%s" % (what, key[1] or key[0], key[2])
         ck.struct("ro.frame", False, "a file-system mutation is reachable from a read API: %s  [%s]  via %s" % (site, text, " -> ".join("%s.%s" % (k[1] or k[0], k[2]) for k in chain[:6])),
-                  {"site": site, "no_input": True})
+                  {"site": site, "when": when, "no_input": True})
     ck.struct("ro.frame.inventory_complete", True, "%d functions reachable from %d read-API roots scanned" % (len(seen), len(roots)))
 
 
